@@ -124,7 +124,7 @@ def rename_to_ref(expr, ref):
     return expr.xreplace(rep)
 
 
-def same_expr(a, b, rng, names, dps=40, points=5):
+def same_expr(a, b, rng, names, dps=40, points=5, scale_terms=()):
     """Decide a == b identically: structural/expanded zero first, else numeric identity at random points.
 
     Returns (equal?, how).  Never answers 'unknown = fail'."""
@@ -136,7 +136,10 @@ def same_expr(a, b, rng, names, dps=40, points=5):
             return True, "expand"
     except Exception:
         pass
-    syms = sorted(a.free_symbols | b.free_symbols, key=lambda s: s.name)
+    syms = set(a.free_symbols | b.free_symbols)
+    for term in scale_terms:
+        syms |= sympy.sympify(term).free_symbols
+    syms = sorted(syms, key=lambda s: s.name)
     tol = sympy.Float(10) ** -12   # float coefficients (0.1, 0.5) carry 1e-16 rounding noise through sympy arithmetic
     for _ in range(points):
         sub = {s: sympy.Float(rng.uniform(0.3, 3.0), dps) for s in syms}
@@ -149,6 +152,12 @@ def same_expr(a, b, rng, names, dps=40, points=5):
         for e in (a, b):
             for term in sympy.Add.make_args(e):
                 scale += abs(sympy.N(term.subs(sub), dps))
+        # contributions of the DEFINITION that may cancel inside a or b (two events whose effects on one state cancel leave a float
+        # residue such as 2.8e-17*X*mu in a combined expression): they set the scale as well
+        for term in scale_terms:
+            tv = sympy.N(sympy.sympify(term).subs(sub), dps)
+            if tv.is_number:
+                scale += abs(tv)
         if abs(va - vb) > tol * scale:
             return False, "numeric-differs"
     return True, "numeric"
